@@ -211,6 +211,7 @@ def vector_method(ex, t, name, objn, arrow, args, n):
         x = elval(ex, el, ex.ev(args[0]))
         ex.write(p, VecVal(v.len + 1, store(v.data, v.len, x), el))
         ex.assume(v.len + 1 <= S.INT_MAX)   # allocation limits: assumed (trusted base)
+        ex.ghost_trigger('push_back', p, [x])
         return None
     if name == 'pop_back':
         ex.oblige('bounds', 'pop_back', v.len > 0, n)
@@ -771,3 +772,19 @@ def _reverse(ex, args, n):
                                              z3.Select(d, j))), dv.data)
     ex.write(dp, VecVal(dv.len, nd, dv.el))
     return None
+
+
+@free('find')
+def _find(ex, args, n):
+    a, b = ex.ev(args[0]), ex.ev(args[1])
+    x = ex.calls._val(ex, args[2])
+    if not (isinstance(a, PtrVal) and isinstance(b, PtrVal) and a.path is not None and a.path.same(b.path)):
+        raise Unsupported('std::find over non-contiguous range')
+    p, v = _vec_at(ex, a.path)
+    ex.oblige('bounds', 'range', z3.And(a.off >= 0, a.off <= b.off, b.off <= v.len), n)
+    j = z3.Int(ex.fresh_name('found'))
+    k = z3.Int(ex.fresh_name('k!fd'))
+    ex.assume(z3.And(j >= a.off, j <= b.off,
+                     z3.Implies(j < b.off, z3.Select(v.data, j) == x),
+                     z3.ForAll([k], z3.Implies(z3.And(k >= a.off, k < j), z3.Select(v.data, k) != x))))
+    return PtrVal(a.path, j, a.el)
